@@ -1,7 +1,9 @@
 /* zvh_dict — dictionary loading on both sides and dictionary round trips over supply modes (C08).
  *   load <hexdict>  -> C=<ok|null> D=<ok|null> idDict=<n> idC=<n> idD=<n> loadC=<errclass of load+compress> loadD=<errclass>
  *   rt <hexdict> <cmode u|c|r|l|p> <attach 0..3> <dds 0|1> <id=val,...|-> <dmode u|d|l|r|p|m> <seed> <size> <nOther>
- *        cmode: u compress_usingDict, c CDict(byCopy)+compress_usingCDict, r CDict(byRef)+refCDict+compress2, l loadDictionary+compress2 (streamed), p refPrefix+compress2
+ *        cmode: b CDict + ZSTD_compressBegin_usingCDict / compressContinue / compressEnd over segments living in separate allocations (first segment 1..7 bytes half of the time),
+ *               R CDict created as ZSTD_dct_rawContent (whatever the bytes look like) + refCDict + compress2  -> must be decoded as raw content (dmode p),
+ *               u compress_usingDict, c CDict(byCopy)+compress_usingCDict, r CDict(byRef)+refCDict+compress2, l loadDictionary+compress2 (streamed), p refPrefix+compress2
  *        dmode: u decompress_usingDict, d DDict+decompress_usingDDict, l DCtx_loadDictionary+decompressStream, r refDDict+decompressDCtx, p refPrefix, m multi-DDict table with nOther other DDicts
  *        -> ok fid=<dictID in frame> n=<size> in=<xxh64 of input> wrong=<errclass when decoded with the same dictionary under another ID|-> frame=<hex>
  *         | cerr <class> | derr <class> | MISMATCH ...
@@ -68,6 +70,18 @@ int main(void) {
                             if (!ZSTD_isError(r)) { size_t pos = 0, out = 0; int guard = 0; r = 1;
                                 while (guard++ < 1000000) { ZSTD_inBuffer ib; ZSTD_outBuffer ob; size_t isz = 1 + rnd() % 40000; ZSTD_EndDirective dir; if (isz > n - pos) isz = n - pos; dir = pos + isz == n ? ZSTD_e_end : (rnd() % 4 ? ZSTD_e_continue : ZSTD_e_flush);
                                     ib.src = src + pos; ib.size = isz; ib.pos = 0; ob.dst = dst + out; ob.size = cap - out; ob.pos = 0; r = ZSTD_compressStream2(c, &ob, &ib, dir); if (ZSTD_isError(r)) break; pos += ib.pos; out += ob.pos; if (dir == ZSTD_e_end && r == 0) { r = out; break; } } }
+                            break; }
+                case 'R': { ZSTD_CCtx_params* pp = ZSTD_createCCtxParams(); ZSTD_CCtxParams_init(pp, level);
+                            cd = ZSTD_createCDict_advanced2(d, dn, ZSTD_dlm_byCopy, ZSTD_dct_rawContent, pp, ZSTD_defaultCMem); ZSTD_freeCCtxParams(pp);
+                            r = cd ? ZSTD_CCtx_refCDict(c, cd) : (size_t)-ZSTD_error_dictionary_corrupted; if (!ZSTD_isError(r)) r = ZSTD_compress2(c, dst, cap, src, n); break; }
+                case 'b': { size_t pos = 0, out = 0; int first = 1; cd = ZSTD_createCDict(d, dn, level); r = cd ? ZSTD_compressBegin_usingCDict(c, cd) : (size_t)-ZSTD_error_dictionary_corrupted;
+                            while (!ZSTD_isError(r)) { size_t seg = first ? ((rnd() & 1) ? 1 + rnd() % 7 : 1 + rnd() % 3000) : 1 + rnd() % 60000; unsigned char* piece; int last; size_t bmax = ZSTD_getBlockSize(c); first = 0;
+                                if (seg > n - pos) seg = n - pos; last = (pos + seg == n);
+                                piece = (unsigned char*)malloc(seg + 1); memcpy(piece, src + pos, seg);        /* its own allocation: not adjacent to the previous segment */
+                                r = last ? ZSTD_compressEnd(c, dst + out, cap - out, piece, seg) : ZSTD_compressContinue(c, dst + out, cap - out, piece, seg); (void)bmax;
+                                /* the segments must stay readable while the frame is in progress (they are the window): released after the frame */
+                                if (no < 64) others[no] = NULL; { static unsigned char* keep[4096]; static int nk; if (nk < 4096) keep[nk++] = piece; if (last) { int q; for (q = 0; q < nk; q++) free(keep[q]); nk = 0; } }
+                                if (ZSTD_isError(r)) break; out += r; pos += seg; if (last) { r = out; break; } }
                             break; }
                 default: r = ZSTD_CCtx_refPrefix(c, d, dn); if (!ZSTD_isError(r)) r = ZSTD_compress2(c, dst, cap, src, n); break;
             }
